@@ -11,23 +11,34 @@ KIND = 8
 IMPL = ('c19', 'impl_features')
 COUNTS = dict(quick=4000, thorough=40000)
 RULE = ('cases = random subset and order of (Tags, Error, Volatile, Retry) passed to @add_state_features on '
-        'Machine / HierarchicalMachine (flat configuration) / LockedMachine / LockedHierarchicalMachine x 1-4 states '
-        'with random feature arguments (tags incl. \'accepted\', accepted flag, hook name out of 3, custom or default '
-        'volatile class, retries 0-3 with on_failure recorder, 0-2 on_enter / on_exit recorders) x 1-3 events with '
-        'condition-free transitions (reflexive 35%, internal 8%, states without outgoing transition) x 1-3 models x '
-        'histories of 1-14 model.trigger calls (50% repeat the previous call, 4% unknown event); every 9th case is from '
-        'the malformed stream (arguments of absent mixins, retries without on_failure, Tags before Error, duplicate '
-        'mixin).  After every call: callback trace (enter/exit/on_failure, model, state seen), result / exception '
-        'type, every model\'s state and the identity of the object under each hook name; is_<tag> of every state; the '
-        'same history on the undecorated class.  Non-trivial: construction succeeded and some call hit a mixin '
-        'branch (Error raised, on_failure fired, or a volatile object was replaced), distinct by hash of the case.')
+        'Machine / HierarchicalMachine / LockedMachine / LockedHierarchicalMachine x 1-4 states (flat) or, on 55% of '
+        'the hierarchical classes, a state tree of 2-5 states, depth <= 3, initial children, transitions biased to '
+        'siblings / parent / child, children reusing the hook name of their parent 40% (nested stream, Volatile '
+        'first in the decorator) x random feature arguments (tags incl. \'accepted\', accepted flag, hook name out '
+        'of 3, custom or default volatile class, retries 0-3 with on_failure recorder, 0-2 on_enter / on_exit '
+        'recorders) x 1-3 events with condition-free transitions (reflexive 35%, internal 8%, states without outgoing '
+        'transition) x 1-3 models, each hook name pre-occupied with probability 0.17 per model by an instance '
+        'attribute set before the machine is attached or by an attribute of the model\'s class x histories of 1-14 '
+        'model.trigger calls (50% repeat the previous call, 4% unknown event); every 9th case is from the malformed '
+        'stream (arguments of absent mixins, retries without on_failure, Tags before Error, duplicate mixin).  After '
+        'every call: callback trace (enter/exit/on_failure, model, state seen), result / exception type, every '
+        'model\'s state and the identity of the object visible under each hook name (fresh = never observed before '
+        'under any name on any model); is_<tag> of every state; the same history on the undecorated class.  '
+        'Non-trivial: construction succeeded and some call hit a mixin branch (Error raised, on_failure fired, a '
+        'volatile object replaced, or a state entered while its hook name was occupied), distinct by hash of the case.')
 ASSUMPTIONS = ['callbacks (on_enter/on_exit/on_failure) neither raise nor call back into the machine (C04/C05 cover those)',
-               'transitions carry no conditions (C01 covers candidate selection); flat state configurations',
+               'transitions carry no conditions (C01 covers candidate selection); state trees without parallel states',
+               'the order-independent specification (FeaturesSpec) and the oracle clauses on traces cover flat '
+               'configurations; on state trees the model (FeaturesH) is compared with the implementation and the '
+               'Volatile / Error / frame clauses are evaluated',
                'Timeout mixin left out (C17)',
-               'object identity observed with all created objects kept alive (no id reuse)']
+               'object identity observed with all created objects kept alive (no id reuse); an object overwritten '
+               'before the call returns is not observed']
 THEOREMS = ['C19_tags', 'C19_error_iff', 'C19_retry_spec', 'C19_retry_exact', 'C19_volatile',
             'C19_volatile_nonvacuous', 'C19_volatile_refuted', 'C19_volatile_refuted_error', 'C19_per_model',
-            'C19_frame_state', 'C19_frame', 'C19_frame_nonvacuous']
+            'C19_frame_state', 'C19_frame', 'C19_frame_nonvacuous', 'C19_volatile_entry_fresh',
+            'C19_volatile_exit_removes', 'C19_volatile_occupied', 'C19_retry_spec_occupied', 'C19_hier_flat',
+            'C19_hier_fresh', 'C19_volatile_refuted_nested']
 
 TAGS = [0, 1, 2, 3, 4]
 HOOKS = [0, 1, 2]
@@ -54,7 +65,28 @@ def gen(rng, i, tier):
     if malformed and feats and rng.random() < 0.15:
         feats.insert(rng.randrange(len(feats) + 1), rng.choice(feats))
     has = dict(tags=FT in feats or FE in feats, acc=FE in feats, hook=FV in feats, retry=FR in feats)
-    ns = rng.randint(1, 4)
+    cls = rng.choice(CLASSES)
+    nested = 'Hierarchical' in cls and rng.random() < 0.55
+    if nested and FV in feats:
+        # nested cases keep Volatile at the head of the decorator: the chain-cut classes KF-C19-1/-2 are
+        # explored on flat configurations, the nested stream is about hook names shared along a branch
+        feats.remove(FV)
+        feats.insert(0, FV)
+    ns = rng.randint(2, 5) if nested else rng.randint(1, 4)
+    parent = [None] * ns
+    initial = []
+    if nested:
+        depth = [0] * ns
+        for s in range(1, ns):
+            if rng.random() < 0.65:
+                par = rng.randrange(s)
+                if depth[par] < 2:
+                    parent[s] = par
+                    depth[s] = depth[par] + 1
+        for s in range(ns):
+            kids = [c for c in range(ns) if parent[c] == s]
+            if kids and rng.random() < 0.8:
+                initial.append([s, rng.choice(kids)])
     cb = [0]
 
     def cbs(hi=2):
@@ -80,6 +112,10 @@ def gen(rng, i, tier):
             tags.remove(0)
         acc = (rng.random() < 0.5) if g_acc else False
         hook = rng.choice(HOOKS) if g_hook else 0
+        if nested and parent[s] is not None and has['hook'] and rng.random() < 0.4:
+            hook, g_hook = states[parent[s]]['hook'], True          # the hook name of the parent
+        elif nested and has['hook'] and rng.random() < 0.5:
+            hook, g_hook = 1 + s % 2, True
         vcls = g_hook and rng.random() < 0.5
         retries = rng.choice([0, 1, 1, 2, 2, 3]) if g_retry else 0
         onf = None
@@ -98,6 +134,18 @@ def gen(rng, i, tier):
                 for _ in range(rng.choice([1, 1, 1, 2])):
                     k = rng.random()
                     dst = None if k < 0.08 else s if k < 0.43 else rng.randrange(ns)
+                    if nested and k >= 0.25:
+                        sib = [c for c in range(ns) if c != s and parent[c] == parent[s]]
+                        kids = [c for c in range(ns) if parent[c] == s]
+                        k2 = rng.random()
+                        if k2 < 0.4 and sib:
+                            dst = rng.choice(sib)
+                        elif k2 < 0.55 and parent[s] is not None:
+                            dst = parent[s]
+                        elif k2 < 0.7 and kids:
+                            dst = rng.choice(kids)
+                        else:
+                            dst = rng.randrange(ns)
                     trans.append([e, s, dst])
     if not trans:
         trans.append([0, 0, rng.randrange(ns)])
@@ -109,16 +157,104 @@ def gen(rng, i, tier):
             hist.append(list(hist[-1]))
         else:
             hist.append([rng.randrange(nm), ne + 2 if rng.random() < 0.04 else rng.randrange(ne)])
-    return dict(cls=rng.choice(CLASSES), order=feats, states=states, trans=trans, ignore=rng.random() < 0.25,
-                nmodels=nm, init=rng.randrange(ns), history=hist)
+    case = dict(cls=cls, order=feats, states=states, trans=trans, ignore=rng.random() < 0.25,
+                nmodels=nm, init=rng.randrange(ns), history=hist, tree=None, pre=[], clsattr=[])
+    if nested:
+        case['tree'] = dict(parent=parent, initial=initial)
+        case['init'] = ([case['init']] + init_chain(case, case['init']))[-1]
+    # hook names already occupied on the model: instance attributes set before the machine is attached,
+    # attributes of the model's class
+    k = 0
+    for m in range(nm):
+        for h in HOOKS:
+            if rng.random() < 0.17:
+                (case['pre'] if rng.random() < 0.5 else case['clsattr']).append([m, h, k])
+                k += 1
+    return case
+
+
+# ------------------------------------------------------------------ state trees
+def _parent(case):
+    t = case.get('tree')
+    return t['parent'] if t else [None] * len(case['states'])
+
+
+def path_of(case, s):
+    par = _parent(case)
+    p = []
+    while s is not None:
+        p.append(s)
+        s = par[s] if s < len(par) else None
+    return p[::-1]
+
+
+def build_order(case):
+    """the states in the order the machine constructs them (a parent, then its children, depth first)"""
+    par = _parent(case)
+    out = []
+
+    def visit(s):
+        out.append(s)
+        for c in case['states']:
+            if par[c['id']] == s['id']:
+                visit(c)
+    for s in case['states']:
+        if par[s['id']] is None:
+            visit(s)
+    return out
+
+
+def full_name(case, s):
+    return '_'.join('s%d' % a for a in path_of(case, s))
+
+
+def init_chain(case, s):
+    t = case.get('tree')
+    ini = dict((a, b) for a, b in t['initial']) if t else {}
+    out = []
+    while s in ini and len(out) < len(case['states']):
+        s = ini[s]
+        out.append(s)
+    return out
+
+
+def resolve(case, p, d):
+    """states exited (deepest first) / entered (outermost first) by a transition to d from the active path p"""
+    dp = path_of(case, d)
+    n = 0
+    while n < len(p) and n < len(dp) and p[n] == dp[n]:
+        n += 1
+    ra, rd = p[n:], dp[n:]
+    if not rd:
+        return ([d] + ra)[::-1], [d] + init_chain(case, d)
+    return ra[::-1], rd + init_chain(case, d)
+
+
+def cand_on_path(case, e, p):
+    for a in reversed(p):
+        t = _first_cand(case, e, a)
+        if t is not None:
+            return t
+    return None
+
+
+def path_hook_clash(case, p):
+    hooks = [_sd(case)[a]['hook'] for a in p]
+    return len(set(hooks)) < len(hooks)
+
 
 
 def enc(case):
+    tree = case.get('tree')
+    paths = [[s['id'], path_of(case, s['id'])] for s in case['states']] if tree else []
+    inits = [list(x) for x in tree['initial']] if tree else []
+    pre, cl = case.get('pre', []), case.get('clsattr', [])
     return [case['order'],
             [[s['id'], [bool(x) for x in s['given']], s['enter'], s['exit'], s['tags'], bool(s['accepted']),
-              s['hook'], s['retries'], [] if s['on_failure'] is None else [s['on_failure']]] for s in case['states']],
+              s['hook'], s['retries'], [] if s['on_failure'] is None else [s['on_failure']]] for s in build_order(case)],
             [[e, s, [] if d is None else [d]] for e, s, d in case['trans']],
-            bool(case['ignore']), case['nmodels'], case['init'], [[m, e] for m, e in case['history']], TAGS, HOOKS]
+            bool(case['ignore']), case['nmodels'], case['init'], [[m, e] for m, e in case['history']], TAGS, HOOKS,
+            paths, inits, [list(x) for x in pre], [list(x) for x in cl], len(pre) + len(cl)]
 
 
 # ------------------------------------------------------------------ implementation side
@@ -126,15 +262,8 @@ class Vol(object):
     """a user-supplied volatile class"""
 
 
-class Mo(object):
-    pass
-
-
-def _state_int(model):
-    try:
-        return int(str(model.state)[1:])
-    except Exception:
-        return 999
+class Preset(object):
+    """an object that sits under a hook name before the machine is attached"""
 
 
 def _exc_code(tr, ex):
@@ -152,18 +281,34 @@ def _run_machine(tr, case, decorated):
     from transitions.extensions import states as S
     feats = {FT: S.Tags, FE: S.Error, FV: S.Volatile, FR: S.Retry}
     base = tr.Machine if case['cls'] == 'Machine' else getattr(ext, case['cls'])
+    nested = bool(case.get('tree'))
     log = []
-    models = [Mo() for _ in range(case['nmodels'])]
+    pre, cl = case.get('pre', []), case.get('clsattr', [])
+    objs = [Preset() for _ in range(len(pre) + len(cl))]      # identities 0..k-1 exist before the first event
+    models = []
+    for mi in range(case['nmodels']):
+        attrs = {hook_name(h): objs[o] for m, h, o in cl if m == mi}
+        mo = type('Mo%d' % mi, (object,), attrs)()
+        for m, h, o in pre:
+            if m == mi:
+                setattr(mo, hook_name(h), objs[o])
+        models.append(mo)
     mid = {id(m): i for i, m in enumerate(models)}
+    name_id = {full_name(case, s['id']): s['id'] for s in case['states']}
+
+    def state_int(model):
+        return name_id.get(str(model.state), 999)
 
     def rec(kind, cb):
         def f(event_data):
-            log.append([kind, cb, mid.get(id(event_data.model), 99), _state_int(event_data.model)])
+            log.append([kind, cb, mid.get(id(event_data.model), 99), state_int(event_data.model)])
         f.__name__ = 'cb%d_%d' % (kind, cb)
         return f
 
-    sdefs = []
-    for s in case['states']:
+    par = _parent(case)
+    ini = dict((a, b) for a, b in case['tree']['initial']) if nested else {}
+
+    def sdef(s):
         d = dict(name='s%d' % s['id'], on_enter=[rec(1, c) for c in s['enter']], on_exit=[rec(0, c) for c in s['exit']])
         if decorated:
             g_tags, g_acc, g_hook, g_retry = s['given']
@@ -179,7 +324,14 @@ def _run_machine(tr, case, decorated):
                 d['retries'] = s['retries']
                 if s['on_failure'] is not None:
                     d['on_failure'] = rec(2, s['on_failure'])
-        sdefs.append(d)
+        kids = [c for c in case['states'] if par[c['id']] == s['id']]
+        if kids:
+            d['children'] = [sdef(c) for c in kids]
+            if s['id'] in ini:
+                d['initial'] = 's%d' % ini[s['id']]
+        return d
+
+    sdefs = [sdef(s) for s in case['states'] if par[s['id']] is None]
     try:
         if decorated:
             @S.add_state_features(*[feats[f] for f in case['order']])
@@ -188,17 +340,17 @@ def _run_machine(tr, case, decorated):
         else:
             class M(base):
                 pass
-        machine = M(model=models, states=sdefs, initial='s%d' % case['init'], auto_transitions=False,
+        machine = M(model=models, states=sdefs, initial=full_name(case, case['init']), auto_transitions=False,
                     send_event=True, ignore_invalid_triggers=case['ignore'])
         for e, s, d in case['trans']:
-            machine.add_transition('e%d' % e, 's%d' % s, None if d is None else 's%d' % d)
+            machine.add_transition('e%d' % e, full_name(case, s), None if d is None else full_name(case, d))
     except (TypeError, AttributeError, ValueError) as ex:
         return None, [1, _exc_code(tr, ex)]
 
     table = []
     if decorated:
-        for s in case['states']:
-            st = machine.get_state('s%d' % s['id'])
+        for s in build_order(case):
+            st = machine.get_state(full_name(case, s['id']))
             row = []
             for t in TAGS:
                 try:
@@ -206,13 +358,12 @@ def _run_machine(tr, case, decorated):
                 except AttributeError:
                     row.append([])
             table.append(row)
-    objs = []
 
     def ident(o):
         for i, x in enumerate(objs):
             if x is o:
                 return i
-        objs.append(o)
+        objs.append(o)                      # kept alive: no id reuse
         return len(objs) - 1
 
     steps = []
@@ -229,7 +380,7 @@ def _run_machine(tr, case, decorated):
             for h in HOOKS:
                 o = getattr(mo, hook_name(h), None)
                 hk.append([] if o is None else [ident(o)])
-            snap.append([_state_int(mo), hk])
+            snap.append([state_int(mo), hk])
         steps.append([[list(x) for x in log], res, snap])
     return (table, steps), None
 
@@ -270,12 +421,14 @@ def _first_cand(case, e, s):
 
 
 def _error_state(case, s):
-    return not any(t[1] == s['id'] for t in case['trans']) and 0 not in _eff_tags(case, s)
+    """no outgoing transition (on the state or, in a state tree, on any of its ancestors) and not accepted"""
+    branch = set(path_of(case, s['id']))
+    return not any(t[1] in branch for t in case['trans']) and 0 not in _eff_tags(case, s)
 
 
-def volatile_guard(case):
-    """guard of C19_volatile: no mixin that can cut the enter chain (Retry with retries > 0, Error with an
-    error state) precedes Volatile in the decorator"""
+def chain_guard(case):
+    """no mixin that can cut the enter chain (Retry with retries > 0, Error with an error state) precedes
+    Volatile in the decorator"""
     o = case['order']
     if FV not in o:
         return True
@@ -287,119 +440,206 @@ def volatile_guard(case):
     return True
 
 
-def check_clauses(case, obs):
-    """returns list of (clause, detail) that fail on the observation"""
+def branch_guard(case):
+    """no two states of one branch (a state and one of its ancestors) use the same hook name"""
+    return not any(path_hook_clash(case, path_of(case, s['id'])) for s in case['states'])
+
+
+def volatile_guard(case):
+    """guard of C19_volatile"""
+    return chain_guard(case) and (FV not in case['order'] or branch_guard(case))
+
+
+def check_clauses(case, obs, info=None):
+    """returns the list of (clause, detail, data) that fail on the observation.  Object identities are only
+    compared for equality: an object expected to be FRESH must never have been observed before (under any
+    name, on any model, including the objects that existed before the machine was attached); an object expected
+    to be KEPT must be the one observed since its creation."""
     bad = []
     if not isinstance(obs, list) or obs[0] != 1 or obs[1][0] != 0:
         return bad
-    _, table, steps, psteps = obs[1]
+    _, table, steps, psteps = obs[1][:4]
     sd = _sd(case)
     h = _has(case)
+    nested = bool(case.get('tree'))
+    nm = case['nmodels']
+    info = info if info is not None else {}
     # C19_tags
-    for s, row in zip(case['states'], table):
+    for s, row in zip(build_order(case), table):
         for t, ans in zip(TAGS, row):
             exp = [t in _eff_tags(case, s)] if h['tags'] else []
             if ans != exp:
-                bad.append(('C19_tags', 'state %d tag %d: %r' % (s['id'], t, ans)))
-    cur = [case['init']] * case['nmodels']
-    held = [None] * case['nmodels']          # expected (hook, object) per model
-    streak = [0] * case['nmodels']
-    nobj = 0
+                bad.append(('C19_tags', 'state %d tag %d: %r' % (s['id'], t, ans), {}))
+    cur = [case['init']] * nm
+    pre = [dict((hh, o) for m, hh, o in case.get('pre', []) if m == j) for j in range(nm)]
+    cls = [dict((hh, o) for m, hh, o in case.get('clsattr', []) if m == j) for j in range(nm)]
+    act = [dict() for _ in range(nm)]          # per model: entered active state -> token of its object
+    emap = {}                                   # token -> observed identity
+    seen_ids = set(o for _, _, o in case.get('pre', [])) | set(o for _, _, o in case.get('clsattr', []))
+    ntok = [0]
+    streak = [0] * nm
     known_events = {t[0] for t in case['trans']}
     feature_free = all(s['retries'] == 0 for s in case['states']) and not (
         h['error'] and any(_error_state(case, s) for s in case['states']))
     for k, ((m, e), (items, res, snap), (pitems, pres, psnap)) in enumerate(zip(case['history'], steps, psteps)):
-        t = _first_cand(case, e, cur[m]) if e in known_events else None
+        p = path_of(case, cur[m])
+        t = cand_on_path(case, e, p) if e in known_events else None
         # per-model separation: the other models are untouched by this call
         if k > 0:
-            for j in range(case['nmodels']):
+            for j in range(nm):
                 if j != m and snap[j] != steps[k - 1][2][j]:
-                    bad.append(('C19_per_model', 'call %d changed model %d' % (k, j)))
-        # frame: states and results (up to the Error raise) follow the undecorated machine
+                    bad.append(('C19_per_model', 'call %d changed model %d' % (k, j), {}))
+        # frame: states follow the undecorated machine; on feature-free configurations everything does
         if [s for s, _ in snap] != [s for s, _ in psnap]:
-            bad.append(('C19_frame_state', 'call %d' % k))
+            bad.append(('C19_frame_state', 'call %d' % k, {}))
         if feature_free and (items != pitems or res != pres):
-            bad.append(('C19_frame', 'call %d' % k))
+            bad.append(('C19_frame', 'call %d' % k, {}))
         if t is not None and t[2] is not None:
-            src, d = cur[m], t[2]
-            ds = sd[d]
+            d = t[2]
+            exits, enters = resolve(case, p, d)
             raised = res == [1, 0]
-            # C19_error_iff
-            if raised != (h['error'] and _error_state(case, ds)):
-                bad.append(('C19_error_iff', 'call %d entering %d: %r' % (k, d, res)))
-            # C19_retry_spec / C19_retry_exact
-            if src != d:
-                streak[m] = 0
-            exhausted = h['retry'] and ds['retries'] > 0 and streak[m] > ds['retries']
-            if not exhausted:
-                streak[m] += 1
-            exits = [[0, c, m, src] for c in sd[src]['exit']]
-            if raised:
-                exp_items = exits
-            elif exhausted:
-                exp_items = exits + [[2, ds['on_failure'], m, d]]
-            else:
-                exp_items = exits + [[1, c, m, d] for c in ds['enter']]
-            if items != exp_items:
-                bad.append(('C19_retry_spec', 'call %d: %r expected %r' % (k, items, exp_items)))
-            # C19_volatile: the model holds exactly the object created at this entry
+            # C19_error_iff: the first entered state that is an error state raises, nothing else does
+            err_at = next((i for i, a in enumerate(enters) if h['error'] and _error_state(case, sd[a])), None)
+            if raised != (err_at is not None):
+                bad.append(('C19_error_iff', 'call %d entering %r: %r' % (k, enters, res), {}))
+            if not nested:
+                # C19_retry_spec / C19_retry_exact (flat configurations: one streak per model)
+                src, ds = cur[m], sd[d]
+                if src != d:
+                    streak[m] = 0
+                exhausted = h['retry'] and ds['retries'] > 0 and streak[m] > ds['retries']
+                if not exhausted:
+                    streak[m] += 1
+                ex_items = [[0, c, m, src] for c in sd[src]['exit']]
+                if raised:
+                    exp_items = ex_items
+                elif exhausted:
+                    exp_items = ex_items + [[2, ds['on_failure'], m, d]]
+                else:
+                    exp_items = ex_items + [[1, c, m, d] for c in ds['enter']]
+                if items != exp_items:
+                    bad.append(('C19_retry_spec', 'call %d: %r expected %r' % (k, items, exp_items), {}))
+            # C19_volatile: every exit removes what is under the state's hook name, every entry that takes
+            # place puts a fresh object there, whatever was under the name before
             if h['vol']:
-                held[m] = (ds['hook'], nobj)
-                nobj += 1
-            cur[m] = d
+                for a in exits:
+                    act[m].pop(a, None)
+                    pre[m].pop(sd[a]['hook'], None)
+                remaining = [a for a in p if a not in exits]
+                entered = enters if err_at is None else enters[:err_at + 1]
+                for a in entered:
+                    hk = sd[a]['hook']
+                    if hk in pre[m] or hk in cls[m] or any(sd[b]['hook'] == hk for b in remaining if b in act[m]):
+                        info['entries_with_occupied_hook'] = info.get('entries_with_occupied_hook', 0) + 1
+                    pre[m].pop(hk, None)
+                    ntok[0] += 1
+                    act[m][a] = ('new', ntok[0])
+                    remaining.append(a)
+            cur[m] = enters[-1]
         elif items:
-            bad.append(('C19_frame', 'call %d ran callbacks without a state change' % k))
-        for j in range(case['nmodels']):
-            exp = [[] for _ in HOOKS]
-            if held[j] is not None:
-                exp[HOOKS.index(held[j][0])] = [held[j][1]]
-            if snap[j][1] != exp:
-                bad.append(('C19_volatile', 'call %d model %d holds %r expected %r' % (k, j, snap[j][1], exp)))
-                # resynchronise on what is there so that one defect is reported once
-                seen = [(HOOKS[i], v[0]) for i, v in enumerate(snap[j][1]) if v]
-                held[j] = seen[0] if len(seen) == 1 else None
-                nobj = max([0] + [v[0] + 1 for _, _, sn in steps[:k + 1] for _, hk in sn for v in hk if v])
+            bad.append(('C19_frame', 'call %d ran callbacks without a state change' % k, {}))
+        for j in range(nm):
+            pj = path_of(case, cur[j])
+            for hi, hk in enumerate(HOOKS):
+                holders = [a for a in pj if a in act[j] and sd[a]['hook'] == hk]
+                got = snap[j][1][hi]
+                got = got[0] if got else None
+                if holders:
+                    tok = act[j][holders[-1]]
+                    if tok in emap:
+                        ok = got == emap[tok]
+                        exp = 'the object created at the entry of state %d' % holders[-1]
+                    else:
+                        ok = got is not None and got not in seen_ids
+                        exp = 'a fresh object (entry of state %d)' % holders[-1]
+                        if ok:
+                            emap[tok] = got
+                else:
+                    want = pre[j].get(hk, cls[j].get(hk))
+                    ok = got == want
+                    exp = 'nothing' if want is None else 'the pre-existing object %d' % want
+                if not ok:
+                    bad.append(('C19_volatile', 'call %d model %d hook %d holds %r expected %s' % (k, j, hk, got, exp),
+                                dict(k=k, j=j, hook=hk, got=got, path=pj, before=p if j == m else pj)))
+                    # resynchronise on what is there so that one defect is reported once
+                    for a in holders:
+                        del act[j][a]
+                    pre[j].pop(hk, None)
+                    if got is not None and got != cls[j].get(hk):
+                        owner = [a for a in pj if sd[a]['hook'] == hk]
+                        if owner:
+                            ntok[0] += 1
+                            act[j][owner[-1]] = ('adopted', ntok[0])
+                            emap[act[j][owner[-1]]] = got
+                        else:
+                            pre[j][hk] = got
+                if got is not None:
+                    seen_ids.add(got)
     return bad
 
 
 def oracle(case, obs):
     bad = check_clauses(case, obs)
-    return '%s: %s' % bad[0] if bad else None
+    return '%s: %s' % bad[0][:2] if bad else None
 
 
 def classify_known(case, model_obs, impl_obs):
     """KF-C19-1: Retry precedes Volatile in the decorator and an exhausted retry (on_failure fired) left the
     model in the state without its volatile object.  KF-C19-2: Error precedes Volatile and the entry into an
-    error state raised before Volatile.enter.  Every other failing clause stays a violation."""
+    error state raised before Volatile.enter.  KF-C19-3: a state and one of its ancestors use the same hook
+    name and the model is / was in both (the child's entry overwrites, its exit deletes the parent's object).
+    Every other failing clause stays a violation."""
     bad = check_clauses(case, impl_obs)
-    if not bad or any(c != 'C19_volatile' for c, _ in bad) or volatile_guard(case):
+    if not bad or any(c != 'C19_volatile' for c, _, _ in bad) or volatile_guard(case):
         return None
     o = case['order']
     before = o[:o.index(FV)]
     steps = impl_obs[1][2]
+    sd = _sd(case)
     kinds = set()
-    for c, detail in bad:
-        k = int(detail.split()[1])
+    for c, detail, data in bad:
+        k, j, hk = data['k'], data['j'], data['hook']
         items, res, snap = steps[k]
         m = case['history'][k][0]
-        if FR in before and any(it[0] == 2 for it in items) and snap[m][1] == [[] for _ in HOOKS]:
+        own = [a for a in data['path'] if sd[a]['hook'] == hk]
+        own_before = [a for a in data['before'] if sd[a]['hook'] == hk]
+        if len(own) > 1 or len(own_before) > 1:
+            kinds.add('KF-C19-3')
+        elif j == m and own and FR in before and any(it[0] == 2 for it in items):
             kinds.add('KF-C19-1')
-        elif FE in before and res == [1, 0] and snap[m][1] == [[] for _ in HOOKS]:
+        elif j == m and own and FE in before and res == [1, 0]:
             kinds.add('KF-C19-2')
         else:
             return None
-    if len(kinds) == 1:
-        return kinds.pop()
-    return 'KF-C19-1' if kinds else None
+    return sorted(kinds)[0] if kinds else None
 
 
 # ------------------------------------------------------------------ bookkeeping
 def canon(case, obs):
-    """the model's output carries the specification's run as a fifth component: it is consumed by
-    extra_checks, not compared with the implementation"""
-    if isinstance(obs, list) and len(obs) == 2 and isinstance(obs[1], list) and len(obs[1]) == 5:
-        return [obs[0], obs[1][:4]]
-    return obs
+    """(1) the model's output carries the specification's run and the hierarchical engine's run on flat cases as
+    extra components: they are consumed by extra_checks, not compared with the implementation; (2) objects are
+    numbered by creation in the model and by first observation in the harness (an object overwritten before the
+    call returns is never observed): both are renumbered by first observation — only equality of identities
+    and freshness are compared."""
+    if not (isinstance(obs, list) and len(obs) == 2 and isinstance(obs[1], list) and obs[1] and obs[1][0] == 0):
+        return obs
+    k0 = len(case.get('pre', [])) + len(case.get('clsattr', []))
+    ren = {}
+    steps = []
+    for items, res, snap in obs[1][2]:
+        sn = []
+        for st, hk in snap:
+            row = []
+            for v in hk:
+                if v and v[0] >= k0:
+                    if v[0] not in ren:
+                        ren[v[0]] = k0 + len(ren)
+                    row.append([ren[v[0]]])
+                else:
+                    row.append(list(v))
+            sn.append([st, row])
+        steps.append([items, res, sn])
+    return [obs[0], [0, obs[1][1], steps, obs[1][3]]]
 
 
 def extra_checks(tier, seed):
@@ -418,16 +658,22 @@ def extra_checks(tier, seed):
     for c, m in zip(cases, mo):
         if m[0] != 1 or m[1][0] != 0:
             continue
-        _, table, steps, psteps, ssteps = m[1]
+        _, table, steps, psteps, ssteps, hsteps = m[1]
+        if c.get('tree'):
+            continue                       # the order-independent specification covers flat configurations
         checked += 1
         r = check_clauses(c, [1, [0, table, ssteps, psteps]])
         if r:
             bad = dict(kind='oracle-vs-spec', theorem='harness oracle = FeaturesSpec.spec_step', case=c,
-                       spec_obs=ssteps, failing_clause='%s: %s' % r[0])
+                       spec_obs=ssteps, failing_clause='%s: %s' % r[0][:2])
             break
         if volatile_guard(c) and steps != ssteps:
             bad = dict(kind='model-vs-spec', theorem='C19_retry_spec / C19_volatile (extracted)', case=c,
                        model_obs=steps, spec_obs=ssteps)
+            break
+        if steps != hsteps:
+            bad = dict(kind='model-vs-model', theorem='hierarchical engine = flat engine on flat configurations',
+                       case=c, model_obs=steps, hier_obs=hsteps)
             break
     out.append(('oracle_equals_extracted_spec', bad is None, dict(cases=checked), bad or {}))
     if tier == 'thorough':
@@ -451,6 +697,10 @@ def in_envelope(case):
 def nontrivial(case, obs):
     if not isinstance(obs, list) or obs[0] != 1 or obs[1][0] != 0:
         return False
+    info = {}
+    check_clauses(case, obs, info)
+    if info.get('entries_with_occupied_hook'):
+        return True                                       # a state entered while its hook name was occupied
     prev = [[case['init'], [[] for _ in HOOKS]] for _ in range(case['nmodels'])]
     for (m, e), (items, res, snap) in zip(case['history'], obs[1][2]):
         if res == [1, 0] and snap[m][0] != prev[m][0]:
@@ -475,8 +725,16 @@ def stats(case, obs, dist):
     if obs[1][0] == 1:
         inc('construction_raised_%s' % {0: 'MachineError', 1: 'AttributeError', 2: 'TypeError'}.get(obs[1][1], 'other'))
         return
-    if not volatile_guard(case):
-        inc('outside_volatile_guard')
+    if not chain_guard(case):
+        inc('outside_chain_guard')
+    if FV in case['order'] and not branch_guard(case):
+        inc('outside_branch_guard')
+    inc('nested' if case.get('tree') else 'flat')
+    if case.get('pre') or case.get('clsattr'):
+        inc('cases_with_preexisting_attributes')
+    info = {}
+    check_clauses(case, obs, info)
+    inc('entries_with_occupied_hook', info.get('entries_with_occupied_hook', 0))
     for items, res, snap in obs[1][2]:
         inc('calls')
         if res == [0, True]:
@@ -512,7 +770,16 @@ def shrink_candidates(case):
                 c = copy.deepcopy(case)
                 del c['states'][si][key][i]
                 yield c
-    if case['nmodels'] > 1 and all(m < case['nmodels'] - 1 for m, _ in h):
+    for key in ('pre', 'clsattr'):
+        for i in range(len(case.get(key, []))):
+            c = copy.deepcopy(case)
+            del c[key][i]
+            objs = sorted(o for _, _, o in c.get('pre', []) + c.get('clsattr', []))
+            for kk in ('pre', 'clsattr'):
+                c[kk] = [[m, hh, objs.index(o)] for m, hh, o in c.get(kk, [])]
+            yield c
+    top = case['nmodels'] - 1
+    if top > 0 and all(m < top for m, _ in h) and all(m < top for m, _, _ in case.get('pre', []) + case.get('clsattr', [])):
         c = copy.deepcopy(case)
         c['nmodels'] -= 1
         yield c
